@@ -237,7 +237,14 @@ static Case draw() {
             }
             std::sort(v.begin(), v.end());
             v.erase(std::unique(v.begin(), v.end()), v.end());
-            int err = rpick({6, 1, 1, 1});
+            int err = rpick({6, 1, 1, 1, 2});
+            if (err == 4 && !v.empty()) {  // mixed resolutions: one member replaced by an ancestor 1..4 levels up or by a centre child
+                size_t i = (size_t)(r64() % v.size());
+                int rr = ref::res_of(v[i]);
+                if (rbool() && rr > 0) v[i] = ref::parent(v[i], std::max(0, rr - ri(1, 4)));
+                else if (rr < 15) v[i] = ref::center_child(v[i], std::min(15, rr + ri(1, 3)));
+                if (rbool() && v.size() > 1) std::swap(v[0], v[i]);  // sometimes as the first element (it sets the resolution of the run)
+            }
             if (err == 1 && !v.empty()) v.push_back(v[(size_t)(r64() % v.size())]);            // duplicate
             if (err == 2 && !v.empty()) v[(size_t)(r64() % v.size())] ^= (7ULL << 56);          // reserved bits set
             if (err == 3 && !v.empty()) v[(size_t)(r64() % v.size())] = 0x7fffffffffffffffULL;  // invalid cell
